@@ -26,13 +26,33 @@ TECHNIQUE = ("Coq proof (ring/field/lra, induction over decay trees) + Coq-Inter
              "correspondence of boosts, forward and backward helicity kinematics and Dalitz momenta with the code")
 
 HEADER = ("From Coq Require Import Reals List.\nFrom Interval Require Import Tactic.\n"
-          "From TFV Require Import Base.RBase Base.Tie Kin.Boost Kin.Angles Kin.Dalitz.\nImport ListNotations.\nOpen Scope R_scope.\n")
+          "From TFV Require Import Base.RBase Base.Tie Kin.Boost Kin.Boost_proofs Kin.Angles Kin.Dalitz.\nImport ListNotations.\nOpen Scope R_scope.\n")
 UNF = ("vx vy vz pt px py pz c1 c2 c3 dot3 norm2_3 norm3 add3 sub3 scale3 neg3 zero3 cross3 unit3 eps cross_unit "
        "mat3_vec id3 vect mk4 add4 sub4 zero4 neg4 mink mass2 mass boost_vector rot4 gamma_of gamma2_of boost_g boost "
        "rest_vector r0 r1 r2 r3 dot4e mat4_vec boost_matrix rmax rel_p fwd_local fwd_p3 fwd_mom next_y next_z frame_yz "
-       "next_frame1 flip_frame next_frame2 cosb cosa sina xnext hel_extract generate_fun0 dalitz_p1 dalitz_p2 dalitz_p3 "
+       "next_frame1 flip_frame next_frame2 cosb cosa sina xnext hel_extract atan2_cos atan2_sin angle_from_cos angle_from_sin generate_fun0 dalitz_p1 dalitz_p2 dalitz_p3 "
        "dE1 dE2 dE3 dpa dpb dpc")
-TAC = "repeat split; cbv [%s]; rclose" % UNF
+TAC = "cbv [%s]; repeat split; interval with (i_prec 90)" % UNF
+_SIDE = "(cbv [%s]; interval with (i_prec 90))" % UNF
+# goals through an _epsilon branch: the harness names the branch the implementation took (from the float
+# values), Coq certifies the branch condition by interval and rewrites with the branch lemma of Boost_proofs.v
+TAC_CU_MAIN = "rewrite !cross_unit_main by %s; %s" % (_SIDE, TAC)
+TAC_CU_FALL = "rewrite !cross_unit_fallback by %s; %s" % (_SIDE, TAC)
+TAC_B_MAIN = "cbv [boost rest_vector boost_matrix]; rewrite !gamma2_of_main by %s; %s" % (_SIDE, TAC)
+TAC_B_GUARD = "cbv [boost rest_vector boost_matrix]; rewrite !gamma2_of_guard by %s; %s" % (_SIDE, TAC)
+
+
+def tac_cross_unit(a, b):
+    return TAC_CU_FALL if float(np.linalg.norm(np.cross(arr(a), arr(b)))) < 1e-14 else TAC_CU_MAIN
+
+
+def tac_boost(v):
+    return TAC_B_MAIN if float(np.sum(arr(v) ** 2)) > 1e-14 else TAC_B_GUARD
+
+
+def tac_rest(p):
+    p = arr(p)
+    return tac_boost(p[1:] / p[0])
 
 
 # ----------------------------------------------------------------------------- formatting helpers
@@ -51,7 +71,7 @@ def V4s(a):
 def _tolq(scale, rtol, atol):
     t = Fraction(atol).limit_denominator(10 ** 40) + Fraction(rtol).limit_denominator(10 ** 40) * Fraction(abs(float(scale))).limit_denominator(10 ** 40)
     if t == 0:
-        t = Fraction(1, 10 ** 200)
+        t = Fraction(1, 10 ** 30)
     return Rq(t)
 
 
@@ -86,8 +106,8 @@ class Cases:
         self.ctx = ctx
         self.items = []  # (cid, stmt, tac, meta)
 
-    def add(self, layer, cid, stmt, meta):
-        self.items.append((cid, stmt, TAC, dict(meta, layer=layer)))
+    def add(self, layer, cid, stmt, meta, tac=None):
+        self.items.append((cid, stmt, tac or TAC, dict(meta, layer=layer)))
         self.ctx.count("goal:" + layer)
 
 
@@ -143,26 +163,26 @@ def lorentz_cases(ctx, rnd, cs, n):
         sc = g * (abs(p[0]) + math.sqrt(sum(x * x for x in p[1:]))) + 1e-300
         out = arr(lv.boost(T(p), T(v)))
         meta = {"function": "LorentzVector.boost", "p": p, "v": v, "kind": kind, "impl": out.tolist()}
-        cs.add("L.boost", "Lb%d" % k, s_vec("boost %s %s" % (V4s(p), V3s(v)), out, P4, rtol=rtol, scale=sc), meta)
+        cs.add("L.boost", "Lb%d" % k, s_vec("boost %s %s" % (V4s(p), V3s(v)), out, P4, rtol=rtol, scale=sc), meta, tac_boost(v))
         # boost_vector / rest_vector / boost_matrix of a timelike vector with velocity v
         mm = rnd.choice([0.2, 1.0, 5.0])
         pm = [mm * g] + [mm * g * x for x in v]
         bv = arr(lv.boost_vector(T(pm)))
-        cs.add("L.boost_vector", "Lv%d" % k, s_vec("boost_vector %s" % V4s(pm), bv, P3, rtol=1e-13, atol=1e-300, scale=1.0),
+        cs.add("L.boost_vector", "Lv%d" % k, s_vec("boost_vector %s" % V4s(pm), bv, P3, rtol=1e-13, atol=1e-30, scale=1.0),
                {"function": "LorentzVector.boost_vector", "p": pm, "impl": bv.tolist()})
         scq = g * (abs(q[0]) + math.sqrt(sum(x * x for x in q[1:]))) + 1e-300
         if kind != "fast" or True:
             r = arr(lv.rest_vector(T(pm), T(q)))
             cs.add("L.rest_vector", "Lr%d" % k, s_vec("rest_vector %s %s" % (V4s(pm), V4s(q)), r, P4, rtol=max(rtol, 1e-11), scale=scq),
-                   {"function": "LorentzVector.rest_vector", "p": pm, "q": q, "kind": kind, "impl": r.tolist()})
+                   {"function": "LorentzVector.rest_vector", "p": pm, "q": q, "kind": kind, "impl": r.tolist()}, tac_rest(pm))
             r = arr(lv.rest_vector(T(pm), T(pm)))
             cs.add("L.rest_vector", "Ls%d" % k, s_vec("rest_vector %s %s" % (V4s(pm), V4s(pm)), r, P4, rtol=max(rtol, 1e-11), scale=g * g * mm),
-                   {"function": "LorentzVector.rest_vector(p,p)", "p": pm, "kind": kind, "impl": r.tolist()})
+                   {"function": "LorentzVector.rest_vector(p,p)", "p": pm, "kind": kind, "impl": r.tolist()}, tac_rest(pm))
         bm = np.array(lv.boost_matrix(T(pm))).reshape(4, 4)
         for i in range(4):
             cs.add("L.boost_matrix", "Lm%d_%d" % (k, i),
                    s_vec("r%d (boost_matrix %s)" % (i, V4s(pm)), bm[i], P4, rtol=max(rtol, 1e-11), scale=max(1.0, g)),
-                   {"function": "LorentzVector.boost_matrix", "p": pm, "row": i, "kind": kind, "impl": bm[i].tolist()})
+                   {"function": "LorentzVector.boost_matrix", "p": pm, "row": i, "kind": kind, "impl": bm[i].tolist()}, tac_rest(pm))
         # M, M2, Dot, neg
         mv = float(arr(lv.M(T(p)))[0]); m2 = float(arr(lv.M2(T(p)))[0]); dt = float(arr(lv.Dot(T(p), T(q)))[0])
         s2 = sum(x * x for x in p)
@@ -172,7 +192,7 @@ def lorentz_cases(ctx, rnd, cs, n):
         cs.add("L.Dot", "LD%d" % k, s_real("mink %s %s" % (V4s(p), V4s(q)), dt, rtol=0, atol=1e-13 * math.sqrt(s2 * sum(x * x for x in q)) + 1e-300),
                {"function": "LorentzVector.Dot", "p": p, "q": q, "impl": dt})
         ng = arr(lv.neg(T(p)))
-        cs.add("L.neg", "LN%d" % k, s_vec("neg4 %s" % V4s(p), ng, P4, rtol=0, atol=1e-300), {"function": "LorentzVector.neg", "p": p, "impl": ng.tolist()})
+        cs.add("L.neg", "LN%d" % k, s_vec("neg4 %s" % V4s(p), ng, P4, rtol=0, atol=1e-30), {"function": "LorentzVector.neg", "p": p, "impl": ng.tolist()})
         # Vector3
         a = [rnd.uniform(-2, 2) for _ in range(3)]
         b = [rnd.uniform(-2, 2) for _ in range(3)]
@@ -184,7 +204,7 @@ def lorentz_cases(ctx, rnd, cs, n):
                 b = [2.0 * x for x in a]
         cu = arr(v3.cross_unit(T(a), T(b)))
         cs.add("L.cross_unit", "Lc%d" % k, s_vec("cross_unit %s %s" % (V3s(a), V3s(b)), cu, P3, rtol=1e-11, scale=1.0),
-               {"function": "Vector3.cross_unit", "a": a, "b": b, "impl": cu.tolist()})
+               {"function": "Vector3.cross_unit", "a": a, "b": b, "impl": cu.tolist()}, tac_cross_unit(a, b))
         un = arr(v3.unit(T(a)))
         cs.add("L.unit", "Lu%d" % k, s_vec("unit3 %s" % V3s(a), un, P3, rtol=1e-12, scale=1.0), {"function": "Vector3.unit", "a": a, "impl": un.tolist()})
     ctx.evaluations += n * 12
@@ -370,7 +390,7 @@ def chain_case(ctx, cs, cid, chain, mass, cost, phi, rt_tol=1e-9, coq=True):
                         cs.add("F.energy", "%s_e%d" % (cid, nb), s_real("pt (fwd_mom %s %s %s)" % (Rq(m), Rq(q), V3s(p3)), pb_in[0], rtol=1e-13), dict(meta, impl=float(pb_in[0])))
                         cs.add("F.velocity", "%s_v%d" % (cid, nb), s_vec("boost_vector %s" % V4s(pb_in), v_out, P3, rtol=1e-13, scale=1.0), dict(meta, impl=v_out.tolist()))
                         g = 1 / math.sqrt(max(1e-300, 1 - float(np.sum(b_v ** 2))))
-                        cs.add("F.boost", "%s_b%d" % (cid, nb), s_vec("boost %s %s" % (V4s(b_p), V3s(b_v)), b_out, P4, rtol=1e-11, scale=g * 2 * abs(b_p[0]) + 1e-300), dict(meta, impl=b_out.tolist()))
+                        cs.add("F.boost", "%s_b%d" % (cid, nb), s_vec("boost %s %s" % (V4s(b_p), V3s(b_v)), b_out, P4, rtol=1e-11, scale=g * 2 * abs(b_p[0]) + 1e-300), dict(meta, impl=b_out.tolist()), tac_boost(b_v))
                     nb += 1
                     mom[d.core][jn] = b_out
                 if not ok:
@@ -399,7 +419,8 @@ def chain_case(ctx, cs, cid, chain, mass, cost, phi, rt_tol=1e-9, coq=True):
     data_p = ca.infer_momentum(data_p, st)
     data_p = ca.add_mass(data_p, st)
     part_data = ca.cal_chain_boost(data_p, st)
-    hel = ca.cal_helicity_angle(data_p, st)
+    hel, groups = run_backward(ca, data_p, st)
+    gpos = [0]
     bykey = {n.key(): n for n in st_tree.nodes()}
     own = {n.key(): n for n in tree.nodes()}
     meta0 = {"function": "cal_angle", "input": inp}
@@ -432,7 +453,7 @@ def chain_case(ctx, cs, cid, chain, mass, cost, phi, rt_tol=1e-9, coq=True):
                 g = float(cur[n.key()][0]) / max(1e-300, mass_of(cur[n.key()]))
                 cs.add("B.rest_p", "%s_r%s_%s" % (cid, "".join(n.key()), "".join(x.key())),
                        s_vec("rest_vector %s %s" % (V4s(cur[n.key()]), V4s(cur[x.key()])), out, P4, rtol=1e-11, scale=2 * g * abs(cur[x.key()][0]) + 1e-300),
-                       dict(meta0, decay=str(d), particle=str(x.part), impl=out.tolist()))
+                       dict(meta0, decay=str(d), particle=str(x.part), impl=out.tolist()), tac_rest(cur[n.key()]))
         z1, x1 = axes[n.key()]
         for kd in n.kids:
             h = hel[d][kd.part]
@@ -440,17 +461,12 @@ def chain_case(ctx, cs, cid, chain, mass, cost, phi, rt_tol=1e-9, coq=True):
             al = float(arr(h["ang"]["alpha"])[0]); be = float(arr(h["ang"]["beta"])[0])
             if not np.array_equal(z2, new[kd.key()][1:]):
                 bad("B.wiring", "z axis of %s is not its rest-frame 3-momentum" % kd.part)
-            if coq:
-                ex = "hel_extract %s %s %s" % (V3s(z1), V3s(x1), V3s(z2))
-                sb = math.sin(be)
-                # conditioning: alpha and x are ill-conditioned as sin(beta) -> 0
-                at = 1e-10 + 1e-13 / max(abs(sb), 1e-9)
-                stmt = "(Rabs (cosb (%s) - cos %s) <= %s /\\ Rabs (cosa (%s) - cos %s) <= %s /\\ Rabs (sina (%s) - sin %s) <= %s)" % (
-                    ex, Rq(be), _tolq(1, 0, 1e-10), ex, Rq(al), _tolq(1, 0, at), ex, Rq(al), _tolq(1, 0, at))
-                cs.add("B.angles", "%s_a%s_%s" % (cid, "".join(n.key()), "".join(kd.key())), stmt,
-                       dict(meta0, decay=str(d), daughter=str(kd.part), impl={"alpha": al, "beta": be}))
-                cs.add("B.next_x", "%s_x%s_%s" % (cid, "".join(n.key()), "".join(kd.key())),
-                       s_vec("xnext (%s)" % ex, xx, P3, rtol=0, atol=at, scale=1.0), dict(meta0, decay=str(d), daughter=str(kd.part), impl=xx.tolist()))
+            cand = [g_ for g_ in groups if np.array_equal(g_["in"][2], z2) and np.array_equal(g_["in"][0], z1) and "used" not in g_]
+            if not cand:
+                bad("B.trace", "no angle_zx_z_getx call for daughter %s of %s with the expected axes" % (kd.part, d)); return
+            grp = cand[0]; grp["used"] = True
+            helix_goals(cs if coq else None, bad, "%s_h%s_%s" % (cid, "".join(n.key()), "".join(kd.key())), grp, z1, x1, z2, xx, al, be,
+                        dict(meta0, decay=str(d), daughter=str(kd.part)))
             axes[kd.key()] = (z2, xx)
         for kd in n.kids:
             nxt = dict(cur); nxt.update(new)
@@ -487,6 +503,82 @@ def chain_case(ctx, cs, cid, chain, mass, cost, phi, rt_tol=1e-9, coq=True):
         elif abs(ms2[str(k)] - v) > 1e-7 * msc:   # M = sqrt(|E^2-p^2|): sqrt conditioning for light particles
             bad("R.roundtrip", "mass of %s: in %r out %r" % (k, v, ms2[str(k)]))
     return fails
+
+
+def run_backward(ca, data_p, st):
+    """cal_helicity_angle with the primitives of EulerAngle.angle_zx_z_getx recorded per call"""
+    from tf_pwa.angle import EulerAngle, Vector3
+    groups = []
+    o_get, o_cu, o_un, o_af = EulerAngle.angle_zx_z_getx, Vector3.cross_unit, Vector3.unit, Vector3.angle_from
+
+    def w_get(z1, x1, z2):
+        g = {"in": (arr(z1), arr(x1), arr(z2)), "rec": []}
+        groups.append(g)
+        ang, x2 = o_get(z1, x1, z2)
+        g["out"] = (float(arr(ang["alpha"])[0]), float(arr(ang["beta"])[0]), arr(x2))
+        g["done"] = True
+        return ang, x2
+
+    def cur():
+        return groups[-1]["rec"] if groups and "done" not in groups[-1] else None
+
+    def w_cu(a, b):
+        r = o_cu(a, b)
+        if cur() is not None:
+            cur().append(("cu", arr(a), arr(b), arr(r)))
+        return r
+
+    def w_un(a):
+        r = o_un(a)
+        if cur() is not None:
+            cur().append(("unit", arr(a), arr(r)))
+        return r
+
+    def w_af(v, x, y):
+        r = o_af(v, x, y)
+        if cur() is not None:
+            cur().append(("af", arr(v), arr(x), arr(y), float(arr(r)[0])))
+        return r
+    EulerAngle.angle_zx_z_getx, Vector3.cross_unit, Vector3.unit, Vector3.angle_from = staticmethod(w_get), w_cu, w_un, w_af
+    try:
+        hel = ca.cal_helicity_angle(data_p, st)
+    finally:
+        EulerAngle.angle_zx_z_getx, Vector3.cross_unit, Vector3.unit, Vector3.angle_from = staticmethod(o_get), o_cu, o_un, o_af
+    return hel, groups
+
+
+def helix_goals(cs, bad, cid, grp, z1, x1, z2, xx, al, be, meta):
+    """one call of angle_zx_z_getx: wiring of its primitive calls (exact) + one goal per primitive"""
+    eq = np.array_equal
+    rec = grp["rec"]
+    kinds = [r[0] for r in rec]
+    if kinds != ["unit", "unit", "cu", "cu", "cu", "cu", "af", "af", "cu"]:
+        bad("B.trace", "angle_zx_z_getx made the calls %s" % kinds); return
+    if not (eq(grp["in"][0], z1) and eq(grp["in"][1], x1) and eq(grp["in"][2], z2)):
+        bad("B.wiring", "angle_zx_z_getx is not called with the parent's (z, x) axes and the daughter's rest-frame momentum"); return
+    uz1, uz2, uy1, ux1, uyr, uxr, a_al, a_be, x2 = rec
+    wired = (eq(uz1[1], z1) and eq(uz2[1], z2) and eq(uy1[1], z1) and eq(uy1[2], x1) and eq(ux1[1], uy1[3]) and eq(ux1[2], z1)
+             and eq(uyr[1], z1) and eq(uyr[2], z2) and eq(uxr[1], uyr[3]) and eq(uxr[2], z1)
+             and eq(a_al[1], uxr[3]) and eq(a_al[2], ux1[3]) and eq(a_al[3], uy1[3])
+             and eq(a_be[1], uz2[2]) and eq(a_be[2], uz1[2]) and eq(a_be[3], uxr[3])
+             and eq(x2[1], uyr[3]) and eq(x2[2], uz2[2]) and eq(x2[3], grp["out"][2]) and eq(xx, grp["out"][2]))
+    if not wired:
+        bad("B.wiring", "angle_zx_z_getx does not combine its primitives as modelled (hel_extract)"); return
+    # angles: the stored alpha is shifted by a multiple of 2 pi
+    if abs(math.cos(al) - math.cos(a_al[4])) > 1e-14 or abs(math.sin(al) - math.sin(a_al[4])) > 1e-14 or be != a_be[4] or grp["out"][1] != be:
+        bad("B.wiring", "stored (alpha, beta) are not the angle_from values (mod 2 pi)"); return
+    if cs is None:
+        return
+    for k, r in enumerate((uz1, uz2)):
+        cs.add("B.unit", "%s_u%d" % (cid, k), s_vec("unit3 %s" % V3s(r[1]), r[2], P3, rtol=1e-12, scale=1.0), dict(meta, impl=r[2].tolist()))
+    for k, r in enumerate((uy1, ux1, uyr, uxr, x2)):
+        cs.add("B.cross_unit", "%s_c%d" % (cid, k), s_vec("cross_unit %s %s" % (V3s(r[1]), V3s(r[2])), r[3], P3, rtol=1e-11, scale=1.0),
+               dict(meta, impl=r[3].tolist(), a=r[1].tolist(), b=r[2].tolist()), tac_cross_unit(r[1], r[2]))
+    for nm, r in (("alpha", a_al), ("beta", a_be)):
+        args = "%s %s %s" % (V3s(r[1]), V3s(r[2]), V3s(r[3]))
+        stmt = "(Rabs (angle_from_cos %s - cos %s) <= %s /\\ Rabs (angle_from_sin %s - sin %s) <= %s)" % (
+            args, Rq(r[4]), _tolq(1, 0, 1e-12), args, Rq(r[4]), _tolq(1, 0, 1e-12))
+        cs.add("B.angle_" + nm, "%s_%s" % (cid, nm), stmt, dict(meta, impl=r[4]))
 
 
 def mass_of(p):
@@ -670,9 +762,9 @@ def run(ctx):
     common.theorem_stage(ctx)
     cs = Cases(ctx)
     quick = ctx.tier == "quick"
-    lorentz_cases(ctx, rnd, cs, 21 if quick else 210)
+    lorentz_cases(ctx, rnd, cs, 14 if quick else 140)
     ctx.log("lorentz goals", len(cs.items))
-    plan = [(3, 3, 2, True), (4, 4, 2, True), (5, 4, 1, True)] if quick else [(3, 3, 8, True), (4, 15, 4, True), (5, 40, 2, True)]
+    plan = [(3, 3, 2, True), (4, 3, 1, False), (5, 2, 1, False)] if quick else [(3, 3, 8, True), (4, 15, 4, True), (5, 40, 2, True)]
     pyfails = chain_cases(ctx, rnd, cs, plan)
     ctx.log("chain goals", len(cs.items))
     pyfails += dalitz_cases(ctx, rnd, cs, 8 if quick else 80)
@@ -700,7 +792,7 @@ def run(ctx):
     ctx.discharged += nextra - len({x["case"] for x in pyfails if x["case"].startswith("r")})
     for c in cs.items[:: max(1, len(cs.items) // 3)]:
         ctx.sample({"case": c[0], "goal": c[1][:300], "meta": {k: v for k, v in c[3].items() if k != "input"}})
-    res = common.coq_cases(ctx, "kin", HEADER, [c[:3] for c in cs.items], per_file=25, case_timeout=60)
+    res = common.coq_cases(ctx, "kin", HEADER, [c[:3] for c in cs.items], per_file=max(25, len(cs.items) // 48 + 1), case_timeout=60)
     for cid, stmt, t, meta in cs.items:
         if res[cid] != "OK":
             ctx.fail(meta["layer"], cid, "implementation value not within tolerance of the model (%s)" % res[cid],
